@@ -880,7 +880,10 @@ func loopVarNames(r *Run) {
 // loops over `m.0`, `m.1`, … written out; each body once per element, the else branch only for the empty one.
 func indexedRangeSource(r *Run) {
 	data := map[string]any{"0": map[string]any{"p": 1}, "1": map[string]any{"q": 2}, "2": map[string]any{}, "x": map[string]any{"0": map[string]any{"z": 9}, "1": map[string]any{}}}
-	for _, tc := range []struct{ path, flat string; n int }{{"m[i]", "m.%d", 3}, {"m.x[i]", "m.x.%d", 2}, {"m[i]", "m.%d", 1}} {
+	for _, tc := range []struct {
+		path, flat string
+		n          int
+	}{{"m[i]", "m.%d", 3}, {"m.x[i]", "m.x.%d", 2}, {"m[i]", "m.%d", 1}} {
 		for _, body := range []string{`{%= k %}={%= v %}`, `{%= k %}{% break %}`, `{%= v %}{% continue %}never`} {
 			inner := func(p string) string { return `[{% for k, v := range ` + p + ` %}` + body + `{% else %}E{% endfor %}]` }
 			indexed := fmt.Sprintf(`{%% for i := 0; i < %d; i++ %%}`, tc.n) + inner(tc.path) + `{% endfor %}`
